@@ -9,7 +9,8 @@ package vault
 //     returned and every operation it started has come back from the store) on the request goroutine or on a goroutine
 //     that the request started, directly or through further goroutines (the runtime records the creator of every
 //     goroutine; the chain is read from the goroutine's own traceback, for intermediate goroutines from one dump of all
-//     goroutines). Long-lived workers of the core (expiration, rollback manager) are never descendants of a request.
+//     goroutines). Every goroutine that is alive when the window opens - the long-lived workers of the core (expiration,
+//     rollback manager), which the test goroutine itself started when it booted the core - is excluded.
 //     The injector fails the operation with a given identity (kind, class of key, occurrence), which is stable when
 //     helper goroutines reorder the operations of a request.
 //   - c06Lat is a storage layer between the recording backend and the in-memory store that models a latency spike:
@@ -131,7 +132,8 @@ type c06Inj struct {
 	hit          *verifx.Op
 	custom       func(in *c06Inj, o *verifx.Op, n int) error // alternative fault rule (called for attributed operations)
 	spike        bool
-	quiet        time.Duration
+	quiet        time.Duration // a held write of the request goroutine: nothing but helper goroutines can overtake it
+	quietHelper  time.Duration // a held write of a helper goroutine: the request goroutine may go on and return
 	maxHold      time.Duration
 	lastProgress time.Time
 	inflight     int
@@ -142,9 +144,18 @@ type c06Inj struct {
 	returned     chan struct{}
 }
 
+// newC06Inj opens the window of a request that is about to start on goroutine g (the calling goroutine). Every
+// goroutine that is alive now - the workers of the core, which the test goroutine started when it booted the core -
+// does not belong to the request; goroutines that appear later belong to it if their chain of creators leads to g.
 func newC06Inj(g int64) *c06Inj {
-	return &c06Inj{g: g, rel: map[int64]bool{}, occ: map[string]int{}, open: true, returned: make(chan struct{}),
-		quiet: 10 * time.Millisecond, maxHold: 100 * time.Millisecond, lastProgress: time.Now()}
+	in := &c06Inj{g: g, rel: map[int64]bool{}, occ: map[string]int{}, open: true, returned: make(chan struct{}),
+		quiet: 5 * time.Millisecond, quietHelper: 50 * time.Millisecond, maxHold: 150 * time.Millisecond, lastProgress: time.Now()}
+	for id := range c06AllCreators() {
+		if id != g {
+			in.rel[id] = false
+		}
+	}
+	return in
 }
 
 // belongs decides whether goroutine G (the CALLING goroutine) belongs to the request. in.mu is held.
@@ -257,8 +268,12 @@ func (in *c06Inj) leave() {
 }
 
 // hold parks a write of the request: until the request has returned, or the request has not started another storage
-// operation for in.quiet, or in.maxHold has passed.
+// operation for a while (in.quiet / in.quietHelper), or in.maxHold has passed.
 func (in *c06Inj) hold() {
+	quietFor := in.quiet
+	if verifx.GoID() != in.g {
+		quietFor = in.quietHelper
+	}
 	in.mu.Lock()
 	in.held++
 	in.mu.Unlock()
@@ -275,7 +290,7 @@ func (in *c06Inj) hold() {
 		case <-tick.C:
 		}
 		in.mu.Lock()
-		quiet := time.Since(in.lastProgress) > in.quiet
+		quiet := time.Since(in.lastProgress) > quietFor
 		in.mu.Unlock()
 		if quiet || time.Since(start) > in.maxHold {
 			return
